@@ -6,7 +6,7 @@
     strictest options) to the same value up to the control Length field, which
     becomes the new size, and encoding that second value reproduces the same
     octets.  On the Spec; the Model decoder/encoder equal the Spec by C05/C06. *)
-From RL Require Import Model.Decode Spec.SpecDecode Spec.SpecEncode Proofs.RoundTrip Proofs.DataRoundTrip Proofs.Reencode.
+From RL Require Import Model.Decode Spec.SpecDecode Spec.SpecEncode Proofs.RoundTrip Proofs.DataRoundTrip Proofs.Reencode Proofs.Transport Model.Encode.
 
 Theorem C10_reencode_ctrl : forall o b m rest, bytes_ok b = true ->
   s_decode o b = Ok (Control m, rest) ->
@@ -19,6 +19,14 @@ Theorem C10_reencode_data : forall o b d rest, bytes_ok b = true -> fw_O (fld 2 
   s_decode o b = Ok (Data d, rest) ->
   encodable (Data d) = true /\ s_decode strict_opts (s_encode (Data d)) = Ok (Data d, []).
 Proof. exact reencode_data. Qed.
+
+(** the chain on the Model: decode, encode, decode under the strictest options, encode *)
+Theorem C10_model_reencode_ctrl : forall o b m rest, bytes_ok b = true ->
+  m_decode o b = Val (Ok (Control m), rest) ->
+  exists e, m_encode (Control m) [] = Val e /\
+            m_decode strict_opts e = Val (Ok (Control (with_length m (len e))), []) /\
+            m_encode (Control (with_length m (len e))) [] = Val e.
+Proof. exact model_reencode_ctrl. Qed.
 
 (** the key lemma: what the decoder returns lies in the encoder's domain *)
 Theorem C10_decoded_avp_wf : forall t p a, bytes_ok p = true -> len p <= 1017 ->
@@ -41,3 +49,4 @@ Print Assumptions C10_reencode_ctrl.
 Print Assumptions C10_reencode_data.
 Print Assumptions C10_decoded_avp_wf.
 Print Assumptions C10_decoded_ctrl_wf.
+Print Assumptions C10_model_reencode_ctrl.
